@@ -46,10 +46,12 @@ theorem mkRequests_spec_height (id : CtxId) (b : Nat) (svc : String) (cons : Add
 
 theorem newBatch_active (s : State) (id : CtxId) (r : ReqId) (h : r ∈ (newBatch s id).active) :
     r ∈ s.active ∨ r.h = s.height := by
+  have hp : ∀ (t : State) (c : Ctx) (cause : String), (onPaused t id c cause).active = t.active := by
+    intro t c cause; unfold onPaused; split <;> rfl
   unfold newBatch at h
   split at h
   · split at h
-    · exact Or.inl h
+    · simp only [delNew] at h; rw [hp] at h; exact Or.inl h
     · split at h
       · unfold chargeAndStart at h
         split at h
@@ -57,41 +59,39 @@ theorem newBatch_active (s : State) (id : CtxId) (r : ReqId) (h : r ∈ (newBatc
           rcases mkRequests_active _ _ _ _ _ _ _ _ r h with h1 | h1
           · exact Or.inl h1
           · exact Or.inr h1
-        · simp only [delNew] at h
-          unfold onPaused at h
-          split at h <;> exact Or.inl h
+        · simp only [delNew] at h; rw [hp] at h; exact Or.inl h
       · exact Or.inl h
   · exact Or.inl h
 
 theorem newBatch_mono (s : State) (id : CtxId) (r : ReqId) (h : r ∈ s.active) : r ∈ (newBatch s id).active := by
+  have hp : ∀ (t : State) (c : Ctx) (cause : String), (onPaused t id c cause).active = t.active := by
+    intro t c cause; unfold onPaused; split <;> rfl
   unfold newBatch
   split
   · split
-    · exact h
+    · simp only [delNew]; rw [hp]; exact h
     · split
       · unfold chargeAndStart
         split
         · simp only [delNew, addExp, initiateRequests, setCtx]
           exact mkRequests_mono _ _ _ _ _ _ _ { s with bank := _ } r h
-        · simp only [delNew]
-          unfold onPaused
-          split <;> exact h
+        · simp only [delNew]; rw [hp]; exact h
       · exact h
   · exact h
 
 theorem newBatch_height (s : State) (id : CtxId) : (newBatch s id).height = s.height := by
+  have hp : ∀ (t : State) (c : Ctx) (cause : String), (onPaused t id c cause).height = t.height := by
+    intro t c cause; unfold onPaused; split <;> rfl
   unfold newBatch
   split
   · split
-    · rfl
+    · simp only [delNew]; rw [hp]
     · split
       · unfold chargeAndStart
         split
         · simp only [delNew, addExp, initiateRequests, setCtx]
           exact (mkRequests_spec_height _ _ _ _ _ _ _ _)
-        · simp only [delNew]
-          unfold onPaused
-          split <;> rfl
+        · simp only [delNew]; rw [hp]
       · rfl
   · rfl
 
@@ -239,6 +239,8 @@ theorem keeperPause_quiet {s s' : State} {id consumer} (h : keeperPause s id con
 
 theorem keeperStart_quiet {s s' : State} {id consumer} (h : keeperStart s id consumer = .ok s') : Quiet s s' := by
   unfold keeperStart at h
+  split at h
+  · cases h
   split at h
   · cases h
   split at h
